@@ -209,22 +209,9 @@ func checkAuthenticator(c *Ctx, rule, fname string, fn *ssa.Function) {
 		}
 		break
 	}
-	// must come from a call (or tuple element of a call) made in this activation that reaches crypto/rand
-	var gen *ssa.Call
-	switch x := src.(type) {
-	case *ssa.Call:
-		gen = x
-	case *ssa.Extract:
-		gen, _ = x.Tuple.(*ssa.Call)
-	}
-	fresh := false
-	if gen != nil && gen.Call.StaticCallee() != nil {
-		for f := range ir.ReachableFrom(gen.Call.StaticCallee()) {
-			if f.String() == "crypto/rand.Read" {
-				fresh = true
-			}
-		}
-	}
+	// must come from a call (or tuple element of a call) made in this activation that reaches crypto/rand — directly,
+	// or as an argument of a formatting/encoding call of a library outside the repository (fmt.Sprintf over the nonce)
+	fresh := freshRandom(src, 0)
 	c.R.Check(fresh, rule, fname, "challenge is generated from crypto/rand in this activation", c.pos(chal.(ssa.Instruction)),
 		"the value put into Challenge.Extra[\"challenge\"] ("+ir.Desc(chal)+") does not come from a call that reaches crypto/rand.Read")
 	// verification call: a call taking both the client's signature and the challenge source
@@ -371,6 +358,60 @@ func ruleRandomLength(c *Ctx, rule string) {
 		}
 	}
 	c.R.Check(n >= 2, rule, "router/auth", "crypto/rand reads enumerated", "-", fmt.Sprintf("found %d", n))
+}
+
+// freshRandom: v is produced by a call made in this activation that reaches crypto/rand.Read, or by a call into a
+// library outside the repository one of whose arguments (variadic elements included) is.
+func freshRandom(v ssa.Value, depth int) bool {
+	if depth > 5 {
+		return false
+	}
+	v = ir.StripIface(v)
+	var call *ssa.Call
+	switch x := v.(type) {
+	case *ssa.Call:
+		call = x
+	case *ssa.Extract:
+		call, _ = x.Tuple.(*ssa.Call)
+	case *ssa.Convert:
+		return freshRandom(x.X, depth+1)
+	case *ssa.Slice:
+		// a variadic argument list: the elements stored into the backing array
+		if a, ok := x.X.(*ssa.Alloc); ok {
+			if refs := a.Referrers(); refs != nil {
+				for _, r := range *refs {
+					if ia, ok := r.(*ssa.IndexAddr); ok {
+						if irs := ia.Referrers(); irs != nil {
+							for _, u := range *irs {
+								if st, ok := u.(*ssa.Store); ok && st.Addr == ia && freshRandom(st.Val, depth+1) {
+									return true
+								}
+							}
+						}
+					}
+				}
+			}
+		}
+		return false
+	}
+	if call == nil {
+		return false
+	}
+	if f := call.Call.StaticCallee(); f != nil {
+		for g := range ir.ReachableFrom(f) {
+			if g.String() == "crypto/rand.Read" {
+				return true
+			}
+		}
+		if ir.ShortName(f) == "" { // library function: look at what it was given
+			for _, a := range call.Call.Args {
+				if freshRandom(a, depth+1) {
+					return true
+				}
+			}
+		}
+	}
+	return false
 }
 
 func regexpQuote(s string) string { return q(s) }
